@@ -22,6 +22,7 @@ RULE = (
     "custom DictImporter(nodecls=Node) and object_pairs_hook). Non-trivial = tree with >= 3 nodes, a non-default json option and at "
     "least one value with a non-ASCII/control character or a nested container. Cases hashed for distinctness."
     ' Also: documents of several MiB (one huge string attribute / 4000 nodes) under three option bundles.'
+    ' Also: cls= encoder classes, handles not at offset 0, positional JsonExporter arguments.'
 )
 ASSUMPTIONS = [
     "expected text = json.dumps(reference dictionary, **options) with the reference serialiser of C10; the effective maxlevel is the JsonExporter's when given, else the supplied DictExporter's",
